@@ -492,7 +492,24 @@ func damagedFrame(r *simrt.RNG, kinds []string, xid uint32, stream bool) Frame {
 		f.Faults = append(f.Faults, op)
 		cur = applyFault(cur, op)
 	}
+	f.Faults = append(f.Faults, drawRepairs(r, cur, marks, k)...)
 	return f
+}
+
+// drawRepairs: after k damage operators, four runs in ten repair every checksum the corpus
+// marked (if any), so that the damage is also seen by code behind a checksum verification.
+func drawRepairs(r *simrt.RNG, cur []byte, marks []hlib.Mark, k int) []FaultOp {
+	if k == 0 {
+		return nil
+	}
+	ops := sumRepairs(marks, false)
+	if len(ops) == 0 || !r.Chance(0.4) {
+		return nil
+	}
+	if r.Chance(0.3) {
+		ops = sumRepairs(marks, true)
+	}
+	return ops
 }
 
 func genTotality(prop string, seed uint64, kinds []string, target string, bareInput func(r *simrt.RNG) ([]byte, []hlib.Mark)) *Scenario {
@@ -593,6 +610,7 @@ func genTotality(prop string, seed uint64, kinds []string, target string, bareIn
 				sc.Direct = append(sc.Direct, g)
 			}
 		}
+		repairs := sumRepairs(marks, false)
 		for _, m := range marks {
 			if m.Off+m.Width > len(b) || len(sc.Direct) > 3000 {
 				continue
@@ -601,6 +619,12 @@ func genTotality(prop string, seed uint64, kinds []string, target string, bareIn
 				f := base
 				f.Faults = []FaultOp{writeOp(m, v, false)}
 				sc.Direct = append(sc.Direct, f)
+				if len(repairs) > 0 {
+					// the same damage with every marked checksum repaired afterwards
+					g := base
+					g.Faults = append([]FaultOp{writeOp(m, v, false)}, repairs...)
+					sc.Direct = append(sc.Direct, g)
+				}
 			}
 		}
 	}
@@ -619,6 +643,7 @@ func damagedBare(r *simrt.RNG, bareInput func(r *simrt.RNG) ([]byte, []hlib.Mark
 		f.Faults = append(f.Faults, op)
 		cur = applyFault(cur, op)
 	}
+	f.Faults = append(f.Faults, drawRepairs(r, cur, marks, k)...)
 	return f
 }
 
